@@ -26,7 +26,7 @@ ID = 'C02'
 LEVEL = 'exploration'
 RULE = ('cases = (catalogue entry | composition of 2-4 streaming operators | extractor | vis call, clause, k); construction clause for every '
         'view-returning catalogue entry; prefix clause for every streaming entry x k in {0,1,2,5,17} x source lengths {100, 10000}; '
-        'extractors fromcsv/fromtsv/fromtext/frompickle on files of 0.2 MB and 20 MB with byte counters; seeded random compositions. '
+        'extractors fromcsv/fromtsv/fromtext/frompickle on files of 0.2 MB and 5 MB with byte counters; seeded random compositions. '
         'Non-trivial: k >= 1 and the short source already yields k rows (so the pull count is decided by laziness, not by the source '
         'running out). Distinct = SHA-1 of the case.')
 ASSUMPTIONS = ['which operators are streaming is taken from the property text via the catalogue (sort-backed operators, crossjoin, tail, transpose, '
@@ -94,7 +94,7 @@ class CountingByteSource(object):
 
 def setup(ctx):
     d = ctx.scratch
-    for tag, nrows in (('small', 4000), ('big', 400000)):
+    for tag, nrows in (('small', 4000), ('big', 100000)):
         p = os.path.join(d, 'x-%s.csv' % tag)
         with open(p, 'w', newline='') as f:
             f.write('f0,f1,f2\r\n')
